@@ -992,8 +992,8 @@ def run_ops(athlib, check, ops):
     return None, ex
 
 
-ENUM_EVERY = {'quick': {'C02': 256, 'C08': 160}, 'thorough': {'C02': 128, 'C08': 128}}
-ENUM_DEPTH = {'C02': 2, 'C08': 1}
+ENUM_EVERY = {'quick': {'C02': 256, 'C08': 160, 'C03': 4000}, 'thorough': {'C02': 128, 'C08': 128, 'C03': 2000}}
+ENUM_DEPTH = {'C02': 2, 'C08': 1, 'C03': 1}
 
 
 def enum_alphabet(ex, d):
@@ -1043,6 +1043,9 @@ def enum_run(athlib, check, tier_, seed, stats):
     base = [op for op in ex.trace if op[0] not in ('crash_log', 'crash_card', 'resched')]
     alpha = enum_alphabet(ex, d)
     depth = ENUM_DEPTH[check]
+    if tier_ == 'thorough' and d.aux.random() < 1.0 / 16:
+        depth += 1              # (thorough: one base in sixteen goes one call deeper - up to 9 261 continuations)
+        stats.inc('enum:bases-one-deeper')
     for suffix in itertools.product(alpha, repeat=depth):
         ex2 = Executor(athlib, check, stats)
         try:
@@ -1066,8 +1069,128 @@ def enum_run(athlib, check, tier_, seed, stats):
     return None, ex, d
 
 
+CELLS = ['o', 'xo', 'xxo', 'xxx', 'x-', 'xx-', '-', 'r', 'xr', 'xxr', '', 'x', 'xx']
+
+
+def exec_height(ex, cells):
+    """Everybody's marks at the current height, attempt by attempt in start-list order (as a card is read).
+    False as soon as a mark cannot be made as written (the athlete is out, the competition over)."""
+    m = ex.m
+    for a in range(3):
+        for b, cell in cells.items():
+            if len(cell) > a:
+                op = (cell[a], b)
+                if m.legal(op) is not True:
+                    return False
+                ex.step(op)
+    return True
+
+
+def replayed(athlib, check, stats, ops):
+    ex = Executor(athlib, check, stats)
+    for op in ops:
+        ex.step(op)
+    return ex
+
+
+def enum_run_c03(athlib, tier_, seed, stats):
+    """Systematic part of C03 ('all result cards over the legal attempt strings per height ... followed by
+    every jump-off continuation'): a seeded competition of 0-3 heights is the prefix; at the NEXT height every
+    combination of the 13 legal attempt strings for the athletes still in is played, and wherever that leads
+    into a jump-off, every first round (bar raised / repeated / lowered below the best x every o/x/r per
+    participant) is played too, later rounds seeded.  Each on a fresh object that re-executes the prefix."""
+    import itertools
+    check = 'C03'
+    rng = random.Random(seed)
+    d = Director(rng, check, tier_, aux_seed=seed)
+    a = d.aux
+    d.p_co = 0.0
+    n = a.choice([2, 2, 2, 3])
+    hpre = a.choice([0, 1, 1, 2, 2, 3])
+    d.n = n; d.bibs = BIBS[:n]; d.H = max(1, hpre); d.force_last = False
+    d.skill = [a.uniform(0.5, 0.98) for _ in range(n)]
+    d.p_early = 0.0
+    scripts = d.make_scripts()
+    stats.inc('enum:bases')
+    stats.inc('mode:enumerated-continuations')
+    ex = Executor(athlib, check, stats)
+    height = d.start
+    try:
+        for b in d.bibs:
+            ex.step(('add', b))
+        for i in range(hpre):
+            if ex.m.phase in ('finished', 'drawn', 'jumpoff') or ex.m.all_out():
+                break
+            ex.step(('bar', fmt(height)))
+            exec_height(ex, {b: scripts[b][i] for b in d.bibs})
+            height = height + d.inc
+        base = list(ex.trace)
+        active = [b for b, at in ex.m.ath.items() if at.out == 'no']
+        if ex.m.phase not in ('scheduled', 'started') or not active:
+            stats.inc('end:completed')
+            return None, ex, d
+        last_bar = ('bar', fmt(height))
+        for tup in itertools.product(CELLS, repeat=len(active)):
+            ex2 = None
+            try:
+                ex2 = replayed(athlib, check, stats, base + [last_bar])
+                exec_height(ex2, dict(zip(active, tup)))
+                stats.inc('enum:continuations')
+                if ex2.m.phase == 'jumpoff' and ex2.c.state == 'jumpoff':
+                    part = [b for b, at in ex2.m.ath.items() if at.out == 'no']
+                    ops2 = list(ex2.trace)
+                    for pol in ('raise', 'repeat', 'below'):
+                        h2 = height + d.inc if pol == 'raise' else height if pol == 'repeat' else max(Decimal('0.01'), height - 3 * d.inc)
+                        for marks in itertools.product('oxr', repeat=len(part)):
+                            ex3 = None
+                            try:
+                                ex3 = replayed(athlib, check, stats, ops2 + [('bar', fmt(h2))])
+                                exec_height(ex3, dict(zip(part, marks)))
+                                h3 = h2
+                                for rnd in range(2):            # later rounds: seeded
+                                    if not (ex3.m.phase == 'jumpoff' and ex3.c.state == 'jumpoff'):
+                                        break
+                                    p3 = [b for b, at in ex3.m.ath.items() if at.out == 'no']
+                                    h3 = h3 + d.inc * a.choice([1, 0, -1, -4])
+                                    if h3 <= 0:
+                                        h3 = Decimal('0.01')
+                                    ex3.step(('bar', fmt(h3)))
+                                    exec_height(ex3, {b: a.choice('oxxr' if rnd == 0 else 'ox') for b in p3})
+                                stats.inc('enum:jumpoff-continuations')
+                            except (Stop, Abandon):
+                                pass
+                            except Violation as v:
+                                stats.inc('end:violation')
+                                return v, ex3, d
+                            if ex3 is not None:
+                                stats.inc('ops', len(ex3.trace))
+                                ex._ev('enum', ex3.digest())
+                                ex.tb_levels |= ex3.tb_levels
+            except (Stop, Abandon):
+                pass
+            except Violation as v:
+                stats.inc('end:violation')
+                return v, ex2, d
+            if ex2 is not None:
+                stats.inc('ops', len(ex2.trace))
+                ex._ev('enum', ex2.digest())
+                ex.tb_levels |= ex2.tb_levels
+                ex.states_seen |= ex2.states_seen
+    except Violation as v:
+        stats.inc('end:violation')
+        return v, ex, d
+    except (Stop, Abandon):
+        pass
+    stats.inc('end:completed')
+    return None, ex, d
+
+
 def one_run(athlib, check, tier_, seed, stats, idx=None):
     every = ENUM_EVERY.get(tier_, {}).get(check)
+    if check == 'C03' and every and idx is not None and idx % every == (idx // every * 7 + 3) % every:
+        v, ex, d = enum_run_c03(athlib, tier_, seed, stats)
+        stats.inc('ops', len(ex.trace))
+        return v, ex, d
     # (the residue rotates with the block number, so that the enumerating runs are spread over all workers)
     if every and idx is not None and idx % every == (idx // every * 7 + 3) % every:
         v, ex, d = enum_run(athlib, check, tier_, seed, stats)
@@ -1360,6 +1483,8 @@ def main(check, tier_):
         'tiebreak_levels_decisive': dict(tbl),
         'enumerated_continuations': {'bases (seeded history cut at a seeded point)': st.get('enum:bases', 0),
                                      'continuations (every call sequence of the depth below over the whole alphabet, each on a fresh object)': st.get('enum:continuations', 0),
+                                     'first jump-off rounds enumerated behind them (C03)': st.get('enum:jumpoff-continuations', 0),
+                                     'bases enumerated one call deeper (thorough)': st.get('enum:bases-one-deeper', 0),
                                      'depth': ENUM_DEPTH.get(check, 0),
                                      'every_nth_run': ENUM_EVERY.get(tier_, {}).get(check, 0)},
         'run_endings': {k[4:]: v for k, v in st.items() if k.startswith('end:')},
